@@ -416,6 +416,121 @@ e2e_case(long idx, void *ctx)
                   FLNAME[fl], t->name);
 }
 
+/* end to end: a Vdata with TWO fields of (possibly) different type and storage flavour, written and read with both buffer
+   interlaces, the fields selected alone, together and in reverse order: every field is converted with its own number type */
+static void
+e2e_pair_case(long idx, void *ctx)
+{
+    (void)ctx;
+    int         ia = (int)(idx % (NTY * 3)), ib = (int)(idx / (NTY * 3));
+    const ty_t *ta = &TY[ia % NTY], *tb = &TY[ib % NTY];
+    int         fa = ia / NTY, fb = ib / NTY, sa = ta->size, sb = tb->size, rs = sa + sb;
+    int         cfg[3] = {3, ia, ib};
+    mc_set_config(cfg, 3, "end-to-end two fields");
+    mc_set_case("Vdata with fields a = %s %s and b = %s %s, 4 records", FLNAME[fa], ta->name, FLNAME[fb], tb->name);
+    uint8 A[4 * 8], B[4 * 8], full[4 * 16], cols[4 * 16], back[4 * 16 + 8];
+    for (int i = 0; i < 4 * sa; i++)
+        A[i] = (uint8)(0x83 + 31 * i);
+    for (int i = 0; i < 4 * sb; i++)
+        B[i] = (uint8)(0x47 + 23 * i);
+    for (int r = 0; r < 4; r++) {
+        if (ta->nt == DFNT_FLOAT32 || ta->nt == DFNT_FLOAT64)
+            A[r * sa + sa - 1] = (uint8)(0x3F + r), A[r * sa + sa - 2] &= 0x7F;
+        if (tb->nt == DFNT_FLOAT32 || tb->nt == DFNT_FLOAT64)
+            B[r * sb + sb - 1] = (uint8)(0x40 + r), B[r * sb + sb - 2] &= 0x7F;
+        memcpy(full + r * rs, A + r * sa, (size_t)sa);
+        memcpy(full + r * rs + sa, B + r * sb, (size_t)sb);
+    }
+    memcpy(cols, A, (size_t)(4 * sa));
+    memcpy(cols + 4 * sa, B, (size_t)(4 * sb));
+    vfs_remove_file(E2E);
+    int32 fid = Hopen(E2E, DFACC_CREATE, 16), ref[2] = {0, 0};
+    if (fid == FAIL)
+        return;
+    Vstart(fid);
+    for (int w = 0; w < 2; w++) { /* w = 0: written from a record-interlaced buffer, 1: from a field-by-field buffer */
+        int32 vs = VSattach(fid, -1, "w");
+        if (VSfdefine(vs, "a", ta->nt | FL[fa], 1) == FAIL || VSfdefine(vs, "b", tb->nt | FL[fb], 1) == FAIL || VSsetfields(vs, "a,b") == FAIL ||
+            VSwrite(vs, w ? cols : full, 4, w ? NO_INTERLACE : FULL_INTERLACE) != 4) {
+            mc_violation("e2e2:vs-write", "writing the two-field Vdata from a %s buffer failed", w ? "NO_INTERLACE" : "FULL_INTERLACE");
+            return;
+        }
+        ref[w] = VSQueryref(vs);
+        VSdetach(vs);
+    }
+    Vend(fid);
+    Hclose(fid);
+    /* the stored bytes of both: records of (a in its file order, b in its file order) */
+    {
+        vfile  *vf = vfs_lookup(E2E);
+        long    sz;
+        uint8  *bytes = vfs_dup_bytes(vf, &sz);
+        fc_file fc;
+        uint8   expfile[4 * 16];
+        memset(&fc, 0, sizeof fc);
+        for (int r = 0; r < 4; r++) {
+            to_file(A + r * sa, expfile + r * rs, sa, fa);
+            to_file(B + r * sb, expfile + r * rs + sa, sb, fb);
+        }
+        if (fc_parse(&fc, bytes, sz) != 0)
+            mc_violation("e2e2:format", "file not well-formed: %s", fc.err[0]);
+        else
+            for (int w = 0; w < 2; w++) {
+                const fc_dd *d = fc_find(&fc, FC_TAG_VS, (uint16)ref[w]);
+                if (!d || d->len != 4 * rs || memcmp(bytes + d->off, expfile, (size_t)(4 * rs)) != 0)
+                    mc_violation("e2e2:vs-stored-bytes", "the stored records of the Vdata written from a %s buffer are not (a in %s order, b in %s order)", w ? "NO_INTERLACE" : "FULL_INTERLACE",
+                                 fa == 0 ? "big-endian" : "little-endian", fb == 0 ? "big-endian" : "little-endian");
+            }
+        fc_free(&fc);
+        free(bytes);
+    }
+    fid = Hopen(E2E, DFACC_READ, 0);
+    Vstart(fid);
+    static const char *SEL[4] = {"a,b", "b", "b,a", "a"};
+    for (int w = 0; w < 2; w++) {
+        int32 vs = VSattach(fid, ref[w], "r");
+        if (vs == FAIL) {
+            mc_violation("e2e2:vs-attach", "cannot attach the two-field Vdata");
+            continue;
+        }
+        for (int sel = 0; sel < 4; sel++)
+            for (int il = 0; il < 2; il++) {
+                /* the expected buffer for this selection and interlace */
+                uint8 want[4 * 16];
+                int   n = 0, f0 = SEL[sel][0] == 'a' ? 0 : 1, nf = strlen(SEL[sel]) > 1 ? 2 : 1;
+                if (il == 0)
+                    for (int r = 0; r < 4; r++)
+                        for (int k = 0; k < nf; k++) {
+                            int isb = (f0 + k) % 2;
+                            memcpy(want + n, isb ? B + r * sb : A + r * sa, (size_t)(isb ? sb : sa));
+                            n += isb ? sb : sa;
+                        }
+                else
+                    for (int k = 0; k < nf; k++) {
+                        int isb = (f0 + k) % 2;
+                        memcpy(want + n, isb ? B : A, (size_t)(4 * (isb ? sb : sa)));
+                        n += 4 * (isb ? sb : sa);
+                    }
+                memset(back, 0xEE, sizeof back);
+                if (VSsetfields(vs, SEL[sel]) == FAIL || VSseek(vs, 0) == FAIL || VSread(vs, back, 4, il ? NO_INTERLACE : FULL_INTERLACE) != 4) {
+                    mc_violation("e2e2:vs-read-failed", "VSread of fields \"%s\" (%s buffer) failed", SEL[sel], il ? "NO_INTERLACE" : "FULL_INTERLACE");
+                    continue;
+                }
+                if (memcmp(back, want, (size_t)n) != 0 || back[n] != 0xEE) {
+                    char sig[80];
+                    snprintf(sig, sizeof sig, "e2e2:vs-readback:%s", il ? "nointerlace" : "fullinterlace");
+                    mc_violation(sig, "fields \"%s\" read into a %s buffer differ from the values written (Vdata written from a %s buffer; a = %s %s, b = %s %s)", SEL[sel],
+                                 il ? "NO_INTERLACE" : "FULL_INTERLACE", w ? "NO_INTERLACE" : "FULL_INTERLACE", FLNAME[fa], ta->name, FLNAME[fb], tb->name);
+                }
+                mc_count("two_field_reads", 1);
+            }
+        VSdetach(vs);
+    }
+    Vend(fid);
+    Hclose(fid);
+    mc_outcome(mc_hash_i(MC_H0, 20000 + idx));
+}
+
 static void
 add_blk(int ti, int fl, int dir, int family, long lo, long hi)
 {
@@ -475,6 +590,8 @@ C06_main(const char *tier, const char *replay)
         }
         else if (cfg[0] == 1)
             mode_case(cfg[1] + NTY * cfg[2] + NTY * 3 * (cfg[3] == DFACC_WRITE), NULL);
+        else if (cfg[0] == 3)
+            e2e_pair_case(cfg[1] + (long)NTY * 3 * cfg[2], NULL);
         else
             e2e_case(cfg[1] + NTY * cfg[2], NULL);
         return 0;
@@ -488,7 +605,10 @@ C06_main(const char *tier, const char *replay)
     mc_round_begin("end to end through Vdata and SD");
     mc_foreach(NTY * 3, e2e_case, NULL, 1, 120);
     mc_round_end();
-    mc_count("evaluations", mc_get("values_converted") + mc_get("mode_calls") + NTY * 3);
+    mc_round_begin("end to end: Vdatas with two fields of every pair of (type, flavour), both buffer interlaces, field subsets and orders");
+    mc_foreach((long)NTY * 3 * NTY * 3, e2e_pair_case, NULL, 1, 120);
+    mc_round_end();
+    mc_count("evaluations", mc_get("values_converted") + mc_get("mode_calls") + NTY * 3 + mc_get("two_field_reads"));
     mc_rule("DFKconvert for 10 number types x {standard, little-endian, native} x {mem->file, file->mem}: all 2^8 and all 2^16 bit patterns; 32-bit: %s plus the "
             "byte-lane family; 64-bit: the byte-lane family (one free lane x 256 x 4 backgrounds, two-lane combinations, walking bits, exponent/NaN/denormal "
             "patterns) - each block converted contiguously, with equal and unequal source/destination strides and in place, compared element by element with "
